@@ -526,6 +526,19 @@ func runALIAS(c *Ctx) {
 		pos := P.InstrPos(st)
 		switch w.Kind {
 		case "field":
+			if w.Field == "Node" {
+				// node.Node = other.Node: the embedded struct that holds the three lists, copied as a whole
+				ld, isLd := st.Val.(*ssa.UnOp)
+				if !isLd || ld.Op != token.MUL {
+					continue
+				}
+				if _, fromLit := ld.X.(*ssa.Alloc); fromLit {
+					continue // composite literal temporary
+				}
+				c.Violation(w.Fn, pos, "node struct copied with shared backing arrays",
+					"the embedded Node (Key, Value and Link together) of one node is assigned to another node: both now share the three backing arrays, so a later in-place insert/delete in one of them (append within capacity, element store) changes the other — including nodes of other versions reached through a cache")
+				continue
+			}
 			if w.Field != "Key" && w.Field != "Value" && w.Field != "Link" {
 				continue
 			}
